@@ -322,6 +322,18 @@ def emitter_config(ctx):
 
 # ------------------------------------------------------------------ C05 kit
 
+class RecStepLegacy(Process):
+    """RecStep written the old way: a Process subclass that declares itself a
+    step by overriding is_step() (derivers used to be written like this)."""
+    defaults = RecStep.defaults
+
+    def is_step(self):
+        return True
+
+    ports_schema = RecStep.ports_schema
+    next_update = RecStep.next_update
+
+
 class TickProcess(Process):
     """Adds 1 to the root variable clock/tick with every update."""
     defaults = {'run_id': 0, 'time_step': 1.0, 'empty': False}
